@@ -18,7 +18,7 @@ EXPLANATION = (
     '(R6) the RPC handler behind Docs::import evaluated on {import, open, other handle calls} x {ok, fails}: success is '
     "reported only after SyncHandle::import_namespace succeeded with the request's capability. (R7) the file-format "
     'migration that runs on open for stores written by iroh-docs 0.94..=0.98 (migrate_redb_v2_tuples::run), evaluated on an'
-    ' old file holding one row per table, carries the capability tables; (R8) Capability::raw -> from_raw evaluated per variant (the stored form reads back as the same variant over the same bytes, kind bytes distinct) and migration 002 evaluated on version-1 tables of 0, 1 and 3 secrets: each becomes a row of the current table keyed by the id derived from the secret and reading back as Write(that secret). (R9) the store actor forwards InsertLocal / DeletePrefix one to one (the store-actor handler evaluated with the fields of the request as named tokens and gates / store / replica calls answered by an oracle, each step also failing in turn: the own fields of the request reach the core function in order on the addressed document, nothing is carried out after a failed step, the reply is the result of that function; the SyncHandle method evaluated: one request of its own kind, addressed to its namespace argument, each field one of its own parameters, the reply of the actor returned). (R10) the RPC handlers doc_set_hash / doc_del evaluated as forwarders (K14). NOT decided: redb persistence itself.'
+    ' old file holding one row per table, carries the capability tables; (R8) Capability::raw -> from_raw evaluated per variant (the stored form reads back as the same variant over the same bytes, kind bytes distinct) and migration 002 evaluated on version-1 tables of 0, 1 and 3 secrets: each becomes a row of the current table keyed by the id derived from the secret and reading back as Write(that secret). (R9) the store actor forwards InsertLocal / DeletePrefix one to one (the store-actor handler evaluated with the fields of the request as named tokens and gates / store / replica calls answered by an oracle, each step also failing in turn: the own fields of the request reach the core function in order on the addressed document, nothing is carried out after a failed step, the reply is the result of that function; the SyncHandle method evaluated: one request of its own kind, addressed to its namespace argument, each field one of its own parameters, the reply of the actor returned). (R10) the RPC handlers doc_set_hash / doc_del evaluated as forwarders (K14). (R11) = C06.R4 failing-body rows: a failing store operation neither rolls back nor drops the shared write transaction that holds an acknowledged import. NOT decided: redb persistence itself.'
 )
 ASSUMPTIONS = ["std::mem::replace(self, other) stores other into self", "redb tables are identified by their key/value types"]
 
@@ -452,6 +452,13 @@ def r10(ctx):
     ctx.floor("C07.R10", 4)
 
 
+def r11(ctx):
+    """"never lost": an imported capability is acknowledged while it sits in the shared, lazily committed write transaction; a
+    later request that fails (an unknown document, a refused import) must not take that transaction with it"""
+    from . import C06
+    C06.share_failing_body(ctx, "C07.R11")
+
+
 def run(ctx):
     ctx.run_rule("C07.R1", r1)
     ctx.run_rule("C07.R2", r2)
@@ -463,3 +470,4 @@ def run(ctx):
     ctx.run_rule("C07.R8", r8)
     ctx.run_rule("C07.R9", r9)
     ctx.run_rule("C07.R10", r10)
+    ctx.run_rule("C07.R11", r11)
